@@ -215,6 +215,7 @@ func (s *Session) asTCPPusher() {
 	pusher.stream = media.NewStream(s.path, s.rawSdp,
 		media.Attr("addr", s.conn.RemoteAddr().String()),
 		media.Multicast(mproxy))
+	mproxy.stream = pusher.stream
 
 	media.Regist(pusher.stream)
 	// 设置Session字段
